@@ -39,11 +39,11 @@ ANCHORS = ['debian._deb822_repro.tokens:whitespace_split_tokenizer.<func>', 'deb
 MUST_REACH = ANCHORS
 FLOORS = {'quick': {'nontrivial': 2500, 'monitors': {'M.read': 5000, 'M.noop': 5000, 'M.edit': 4000, 'M.writeback': 4000, 'M.abort': 1200, 'K5': 4000},
                     'counters': {'op:append': 1000, 'op:comment+append': 300, 'op:remove': 800, 'op:replace': 800, 'op:ref-set': 800, 'op:ref-remove': 800, 'op:iter-remove': 120,
-                                 'layout:first-line-blank': 200, 'layout:comment-inside': 800}},
+                                 'layout:first-line-blank': 200, 'layout:comment-inside': 800, 'layout:multi-line-item': 250}},
           'thorough': {'nontrivial': 150000, 'monitors': {'M.read': 300000, 'M.noop': 300000, 'M.edit': 250000, 'M.writeback': 250000,
                                                           'M.abort': 80000, 'K5': 250000},
                        'counters': {'op:append': 60000, 'op:comment+append': 18000, 'op:remove': 50000, 'op:replace': 50000, 'op:ref-set': 50000,
-                                    'op:ref-remove': 50000, 'op:iter-remove': 8000, 'layout:first-line-blank': 12000, 'layout:comment-inside': 50000}}}
+                                    'op:ref-remove': 50000, 'op:iter-remove': 8000, 'layout:first-line-blank': 12000, 'layout:comment-inside': 50000, 'layout:multi-line-item': 30000}}}
 LEVEL_TEXT = ('Runtime monitoring: seeded list-field layouts and edit histories on the live list views; reads are compared with an '
               'independent split oracle, every step of an edit history with a Python-list model, the written-back document '
               'byte-for-byte outside the field and by fresh parse inside it.  Held-on-observed.')
@@ -74,6 +74,17 @@ def gen_layout(r, comma, name='F'):
             v = r.choice(['foo%d', 'bar%d', 'amd64-%d', 'any%d', 'a%d', 'linux-any%d', '#hash%d', 'x#y%d', '!armel%d'])
         vals.append(v % i if r.random() < .8 else v.replace('%d', ''))
     flags = set()
+    if comma and r.random() < .2:
+        # ONE item of a comma list may itself span several lines (long dependency with version, arch list, profiles)
+        k = r.randrange(len(vals))
+        parts = ['ml%d' % k] + [r.choice(['(>= 1.%d~)', '[linux-any kfreebsd-any]', '<!nocheck>', '<!stage1 !cross>', 'x%d', '| alt%d'])
+                                .replace('%d', str(j)) for j in range(r.randint(1, 5))]
+        v = parts[0]
+        for part in parts[1:]:
+            v += '\n' + r.choice([' ', ' ', '\t', '  ']) + r.choice(['', ' ', '   ']) + part
+        vals[k] = v
+        flags.add('multi-line')
+        flags.add('multi-line-item')
     out = name + ':' + r.choice(['', ' ', ' ', '  ', '\t'])
 
     def linebreak():
